@@ -30,6 +30,10 @@ import UF.Props.C04Full
       unescaped); `$dnstype` names ASCII;
     * not in the grammar: `~extension` (toggles a bit), `$dnsrewrite` (C09/C10), `$replace`/`$csp`/… (unreachable).
   Only property theorems and non-vacuity examples here; helper lemmas live in UF/Compose5.
+
+  Added by group P2 (REVIEW2 F11): Props/C04Perm.lean PROVES what `c04_text_ref_order` below assumes (`hsame`):
+  the reference is invariant under permutation of modifiers and values (`c04_text_ref_perm`).  Props/C04Wide.lean
+  proves `c04_text_ref` for a WIDER grammar: quoted client names, patterns beginning with `/`, `~extension`.
 -/
 namespace UF.C04
 open UF Bytes UF.I2 UF.L
